@@ -12,6 +12,7 @@ C15 driver.  One output line per input line.
   take <cols> <offs>                       Dataset::take
   takerows <cols> <ids>                    Dataset::take_rows (row ids when stable, else addresses)
   takeaddr <cols> <addrs>                  TakeBuilder::try_new_from_addresses
+  takescan <cols> <starts> <ends>          Dataset::take_scan over the ranges starts[i]..ends[i] (cols among k, x)
   map <S|B> <dv> <offs>                    OffsetMapper over a Set / Bitmap deletion vector
   idx <ids>                                RowIdIndex::get for each id over the current layout
 -/
@@ -99,6 +100,12 @@ def step (s : St) (line : String) : St × String :=
     match validCols cols, parseNatList addrs with
     | true, some addrs => (s, showRes cols (takeAddrs s.frags s.stable (addrs.map decodeAddr)))
     | _, _ => (s, bad)
+  | ["takescan", cols, starts, ends] =>
+    match validCols cols, parseNatList starts, parseNatList ends with
+    | true, some starts, some ends =>
+      if starts.length = ends.length then (s, showRes cols (takeScan s.frags s.stable (starts.zip ends)))
+      else (s, bad)
+    | _, _, _ => (s, bad)
   | ["map", kind, dv, offs] =>
     match kind == "S" || kind == "B", parseNatList dv, parseNatList offs with
     | true, some dv, some offs =>
